@@ -14,7 +14,8 @@ for mp in sorted(glob.glob(os.path.join(HERE, "seeded", "*", "meta.json"))):
     if want and name not in want:
         continue
     meta = json.load(open(mp))
-    props = [p for p, c in meta.get("checks", {}).items() if c.get("verdict") == "DETECTED"]
+    ch = meta.get("checks", {})
+    props = list(ch) if isinstance(ch, list) else [p for p, c in ch.items() if c.get("verdict") == "DETECTED"]
     patch = os.path.join(d, "patch_rebased.diff")
     if not os.path.exists(patch):
         patch = os.path.join(d, "patch.diff")
@@ -25,4 +26,5 @@ for mp in sorted(glob.glob(os.path.join(HERE, "seeded", "*", "meta.json"))):
             "MISSED" if " MISSED" in out else "ERROR"
         rows.append(f"{name:10s} {p} {v}")
         print(rows[-1], flush=True)
-open(os.path.join(HERE, "seeded", "REGRESSION.txt"), "w").write("\n".join(rows) + "\n")
+if not want:
+    open(os.path.join(HERE, "seeded", "REGRESSION.txt"), "w").write("\n".join(rows) + "\n")
